@@ -38,6 +38,9 @@ type hostile struct {
 	// expectMeta: canonical key -> values that must be found (Get/Values with
 	// canonical casing) in the trailers or, on error, in the error metadata.
 	expectMeta map[string][]string
+	// metaAnyOrder: the values were sent under two spellings of the key, so
+	// only their presence (not their relative order) is specified.
+	metaAnyOrder bool
 }
 
 func encMsg(codec string, m *gen.Msg) []byte {
@@ -190,6 +193,11 @@ func genGRPC(r *rand.Rand, protocol, codec string, kind svc.Kind) *hostile {
 		for _, v := range mv {
 			fmt.Fprintf(block, "%s: %s\r\n", wk, v)
 		}
+		if wk2 := randCase(r, mk); wk2 != wk && r.Intn(2) == 0 {
+			fmt.Fprintf(block, "%s: %s\r\n", wk2, "v3")
+			mv = []string{"v1", "v2", "v3"}
+			h.metaAnyOrder = true
+		}
 		tb := block.Bytes()
 		switch r.Intn(12) {
 		case 0:
@@ -341,6 +349,13 @@ func genConnectStream(r *rand.Rand, codec string) *hostile {
 			errPart = `"error":{"message":"no code"},`
 		}
 		es := fmt.Sprintf(`{%s"metadata":{%q:["a","b"]}}`, errPart, wk)
+		if wk2 := randCase(r, mk); wk2 != wk && r.Intn(2) == 0 {
+			// the same field under two spellings: HTTP field names are
+			// case-insensitive, so a lookup must find the values of both
+			es = fmt.Sprintf(`{%s"metadata":{%q:["a","b"],%q:["c"]}}`, errPart, wk, wk2)
+			mv = []string{"a", "b", "c"}
+			h.metaAnyOrder = true
+		}
 		flags := byte(0x02)
 		payload := []byte(es)
 		if h.header.Get("Connect-Content-Encoding") == "gzip" && r.Intn(2) == 0 {
@@ -639,7 +654,11 @@ func c06Case(run *ev.Run, seen *statusSeen, protocol, codec string, kind svc.Kin
 				continue
 			}
 			run.Count("meta.casing.checked", 1)
-			if !subseq(got, want) {
+			found := subseq(got, want)
+			if h.metaAnyOrder {
+				found = containsAll(got, want)
+			}
+			if !found {
 				detail["lookup_key"] = k
 				detail["got"] = got
 				detail["client_trailer"] = cl.Trailer
@@ -653,4 +672,20 @@ func c06Case(run *ev.Run, seen *statusSeen, protocol, codec string, kind svc.Kin
 	if h.status != 200 || strings.HasPrefix(h.class, "grammar") {
 		run.Sample(map[string]any{"config": cfg, "class": h.class, "status": h.status, "body": trunc(string(h.body), 80), "outcome": outcome})
 	}
+}
+
+// containsAll reports whether every element of want occurs in got (as a
+// multiset).
+func containsAll(got, want []string) bool {
+	left := map[string]int{}
+	for _, g := range got {
+		left[g]++
+	}
+	for _, w := range want {
+		if left[w] == 0 {
+			return false
+		}
+		left[w]--
+	}
+	return true
 }
